@@ -300,7 +300,7 @@ def run(tier):
         meta[cid] = (d, uses, text, reqs, uri)
         # the same document is evaluated: which binding does each executed use read? plus an error at a known position
         j = rng.choice(JUNK)
-        err_line = 'e1 = "%s%s"; fail("boom")' % (j, j)
+        err_line = 'e1 = "%s%s"; fail("boom %s")' % (j, j, rng.choice(JUNK))
         rcases.append({"id": cid, "cfg": {"dialect": "internal"}, "units": [{"file": "doc%d.star" % i, "src": text + err_line + "\n"}]})
         meta[cid] += (err_line,)
     svh = os.path.join(common.build("dbg"), "svh")
@@ -333,8 +333,12 @@ def run(tier):
                     want_line = len(split_lines(text)) - 1
                     want_col = err_line.index("fail(")
                     st["error_positions"] += 1
+                    want_end = len(err_line)  # the call expression extends to the end of the line; columns count characters
                     if sp["bl"] != want_line or sp["bc"] != want_col:
                         rep.violation("c19:error-position", "%s: fail() reported at %d:%d but it is at line %d, character %d of %r" % (c["id"], sp["bl"], sp["bc"], want_line, want_col, err_line), wit)
+                    elif sp["el"] != want_line or sp["ec"] != want_end:
+                        rep.violation("c19:error-position-end", "%s: the span of fail(...) is reported to end at %d:%d but it ends at line %d, character %d of %r" % (
+                            c["id"], sp["el"], sp["ec"], want_line, want_end, err_line), wit)
                 elif e[3] == "err":
                     rep.inconc("document failed before its end (generator)", {"id": c["id"], "msg": e[4].get("msg")})
         end = [e for e in evs if e[0] == "server_end"]
